@@ -1068,11 +1068,12 @@ bool Session::send_process(Message *msg) // called from the connection (possibly
 		char output[FIX8_MAX_MSG_LENGTH + HEADER_CALC_OFFSET], *ptr(output);
 		size_t enclen(msg->encode(&ptr));
 		const char *optr(ptr);
+		const size_t olen(enclen);
 		if (msg->get_end_of_batch())
 		{
 			if (!_batchmsgs_buffer.empty())
 			{
-				_batchmsgs_buffer.append(ptr);
+				_batchmsgs_buffer.append(optr, olen);
 				ptr = &_batchmsgs_buffer[0];
 				enclen = _batchmsgs_buffer.size();
 			}
@@ -1087,7 +1088,7 @@ bool Session::send_process(Message *msg) // called from the connection (possibly
 		}
 		else
 		{
-			_batchmsgs_buffer.append(ptr);
+			_batchmsgs_buffer.append(optr, olen);
 		}
 
 		if (_plogger && _plogger->has_flag(Logger::outbound))
@@ -1100,8 +1101,9 @@ bool Session::send_process(Message *msg) // called from the connection (possibly
 			if (_persist)
 			{
 				f8_scoped_spin_lock guard(_per_spl, _connection->get_pmodel() == pm_coro); // not needed for coroutine mode
-				if (!msg->is_admin())
-					_persist->put(_next_send_seq, ptr);
+				if (!msg->is_admin()) // store this message's own bytes under the number it was sent with
+					_persist->put(msg->get_custom_seqnum() ? msg->get_custom_seqnum() : static_cast<unsigned int>(_next_send_seq),
+						f8String(optr, olen));
 				_persist->put(_next_send_seq + 1, _next_receive_seq);
 				//cout << "Persisted (send):" << (_next_send_seq + 1) << " and " << _next_receive_seq << endl;
 			}
